@@ -239,6 +239,11 @@ func (st *c17State) repair(db util.NodeDB, dir string, removed []string, v int64
 		}
 		_ = donor.PutNode(util.Key(k), n)
 	}
+	// the donor also holds nodes that have nothing to do with this trie, older and younger than the repair version
+	for j, o := range []int64{0, v + 5} {
+		u := util.NewLeafNode([]byte("ee"), []byte{'e', byte('0' + j)}, util.Sequence(o), mkVal([]byte{0xee, byte(j), ':'}))
+		_ = donor.PutNode(u.GetHashBytes(), u)
+	}
 	before, _ := snapshotDB(donor)
 	mpt := newMPT(db, v, st.root)
 	res := guard(func() string { return errKind(mpt.MergeDB(donor, st.root, nil)) })
@@ -470,6 +475,18 @@ func runC17(ops []string) CaseResult {
 			st.curMpt = newMPT(st.cur, st.version, st.root)
 			out = fmt.Sprintf("ok %s %d", rootStr(st.root), len(order))
 			tags[fmt.Sprintf("nodes:%02d", sizeBucket(len(order)))] = true
+			depth, maxDepth := make([]int, len(order)), 0
+			for j, e := range order {
+				if e.parent >= 0 {
+					depth[j] = depth[e.parent] + 1
+				}
+				if depth[j] > maxDepth {
+					maxDepth = depth[j]
+				}
+			}
+			if maxDepth > 32 {
+				tags["node-levels>32"] = true
+			}
 		case "rm", "rmsub":
 			var idxs []int
 			if f[0] == "rm" {
@@ -555,16 +572,45 @@ func runC17(ops []string) CaseResult {
 				} else {
 					tags["repair:other-version"] = true
 				}
+				lo, hi := uint64(1<<63), uint64(0)
+				for _, k := range st.removed {
+					if rn, err := parseStored(st.full[k]); err == nil {
+						if rn.origin < lo {
+							lo = rn.origin
+						}
+						if rn.origin > hi {
+							hi = rn.origin
+						}
+					}
+				}
+				switch {
+				case uint64(v) < lo:
+					tags["repair:below-all-origins"] = true
+				case uint64(v) < hi:
+					tags["repair:between-origins"] = true
+				case uint64(v) > hi:
+					tags["repair:above-all-origins"] = true
+				}
 			}
 			st.removed = nil
 		case "sweep1", "sweepsub", "all":
 			n := len(st.order)
 			var recs []string
+			// repair versions cycle through: the trie version, above it, below every origin (0), just below the trie
+			// version (between the origins of a multi-version trie)
 			alt := func(k int) int64 {
-				if k%2 == 0 {
+				switch k % 4 {
+				case 0:
 					return st.version
+				case 1:
+					return st.version + 1 + int64(k)
+				case 2:
+					return 0
 				}
-				return st.version + 1 + int64(k)
+				if st.version > 0 {
+					return st.version - 1
+				}
+				return 0
 			}
 			switch {
 			case f[0] == "all" && n > 10:
@@ -620,7 +666,11 @@ func runC17(ops []string) CaseResult {
 
 func genC17(r *rand.Rand, tier string, idx int) []string {
 	kind := []string{"mem", "pndb"}[idx%2]
-	ver := int64(r.Intn(5))
+	ver := int64(1 + r.Intn(5)) // >= 1: version 0 lies below every node's origin
+	ver0 := ver
+	if idx%48 == 13 {
+		return genC17Comb(r, kind, ver)
+	}
 	ops := []string{fmt.Sprintf("new %s %d", kind, ver)}
 	alpha := pathAlphabets[r.Intn(len(pathAlphabets))]
 	small := idx%4 == 3 // small tries so that `all` applies
@@ -670,8 +720,18 @@ func genC17(r *rand.Rand, tier string, idx int) []string {
 			}
 		}
 	}
+	// below every origin, the first version, between, the last version, above
 	repairV := func() int64 {
-		if r.Intn(2) == 0 {
+		switch r.Intn(6) {
+		case 0:
+			return 0
+		case 1:
+			return ver0
+		case 2:
+			return ver0 + r.Int63n(ver-ver0+1)
+		case 3:
+			return ver - 1
+		case 4:
 			return ver
 		}
 		return ver + 1 + int64(r.Intn(4))
@@ -707,10 +767,80 @@ func genC17(r *rand.Rand, tier string, idx int) []string {
 	return ops
 }
 
+// genComb returns 64-nibble keys forming a comb: a base key plus one "tooth" key per chosen position that shares the
+// base key's prefix up to that position. The trie has a branch at every tooth position and an extension across every
+// gap, `levels` node levels (branches + extensions) in a single chain below the root, the base key's leaf at the bottom.
+func genComb(r *rand.Rand, levels int) []string {
+	const hexd = "0123456789abcdef"
+	base := make([]byte, 64)
+	for i := range base {
+		base[i] = hexd[r.Intn(16)]
+	}
+	keys := []string{string(base)}
+	pos := 0
+	if r.Intn(2) == 0 {
+		pos = 1 + r.Intn(2) // extension at the root
+	}
+	for lv := 0; lv < levels && pos < 63; {
+		k := append([]byte(nil), base...)
+		k[pos] = hexd[(strings.IndexByte(hexd, base[pos])+1+r.Intn(15))%16]
+		for j := pos + 1; j < 64; j++ {
+			k[j] = hexd[r.Intn(16)]
+		}
+		keys = append(keys, string(k))
+		lv++
+		gap := 1
+		if r.Intn(5) == 0 {
+			gap = 2 + r.Intn(2)
+			lv++
+		}
+		pos += gap
+	}
+	r.Shuffle(len(keys), func(i, j int) { keys[i], keys[j] = keys[j], keys[i] })
+	return keys
+}
+
+// genC17Comb: a trie more than 32 node levels deep (33..63), built at several versions; nodes near the bottom (and
+// random ones) are removed.
+func genC17Comb(r *rand.Rand, kind string, ver int64) []string {
+	ver0 := ver
+	ops := []string{fmt.Sprintf("new %s %d", kind, ver)}
+	keys := genComb(r, 33+r.Intn(31))
+	for _, k := range keys {
+		ops = append(ops, fmt.Sprintf("ins %s %02x", k, 0x41+r.Intn(26)))
+		if r.Intn(8) == 0 {
+			ver += int64(1 + r.Intn(3))
+			ops = append(ops, fmt.Sprintf("ver %d", ver))
+		}
+	}
+	ops = append(ops, "snap", "has", "miss")
+	n := 2 * len(keys) // about the number of nodes; pre-order indexes near n are near the bottom of the comb
+	for g := 0; g < 6; g++ {
+		var i int
+		switch g % 3 {
+		case 0:
+			i = n - 2 - r.Intn(6) // near the bottom
+		case 1:
+			i = n/2 + r.Intn(n/2)
+		default:
+			i = r.Intn(n)
+		}
+		if g%2 == 0 {
+			ops = append(ops, fmt.Sprintf("rm %d", i))
+		} else {
+			ops = append(ops, fmt.Sprintf("rm %d,%d,%d", i, r.Intn(n), n-1-r.Intn(4)))
+		}
+		ops = append(ops, "has", "miss", "get "+keys[r.Intn(len(keys))], "get "+keys[r.Intn(len(keys))])
+		v := []int64{0, ver0, ver, ver + 2, ver - 1, ver0 + 1}[r.Intn(6)]
+		ops = append(ops, fmt.Sprintf("repair %d", v), "has", "miss")
+	}
+	return append(ops, "iter", "sweep1")
+}
+
 func init() {
 	register(&Suite{
 		Name: "c17",
-		Rule: "random multi-version tries on memory and persistent stores; removal of every single non-root node (sweep1), every subtree (sweepsub), random scattered sets (rm/rmsub groups) and, for tries of <= 10 nodes, every subset (all); HasMissingNodes / GetAllMissingNodes / lookups / iteration compared with an independent walk of the stored bytes; repair by MergeDB from a donor store at the creation version and at different versions; non-trivial = at least one non-empty removal and one repair",
+		Rule: "random multi-version tries on memory and persistent stores; removal of every single non-root node (sweep1), every subtree (sweepsub), random scattered sets (rm/rmsub groups) and, for tries of <= 10 nodes, every subset (all); HasMissingNodes / GetAllMissingNodes / lookups / iteration compared with an independent walk of the stored bytes; every 48th case a comb-shaped trie of 64-nibble keys with 33..63 node levels (branches and extensions) in one chain; repair by MergeDB from a donor store (which also holds unrelated nodes) at versions below every origin, between origins, at and above the trie version; non-trivial = at least one non-empty removal and one repair",
 		Gen:  genC17,
 		Run:  runC17,
 		Exhaustive: func(tier string, emit func([]string)) {
